@@ -266,9 +266,10 @@ op_fdworld (char **tok, int ntok)
 		if (!strcmp (sub, "close"))
 		{	int r = sf_close (h->sf) ;
 			h->sf = NULL ;
-			if (h->userfd >= 0 && !h->close_desc) close (h->userfd) ;		/* the caller's own descriptor */
-			h->userfd = -1 ;
 			printf ("ret=%d", r) ;
+			/* the caller's own descriptor (close_desc = 0): it must still be open now -- uclose=0; -1: sf_close closed it */
+			if (h->userfd >= 0 && !h->close_desc) printf (" uclose=%d", close (h->userfd)) ;
+			h->userfd = -1 ;
 			file_digest (h->path, "file") ;
 			if (strstr (h->path, ".sd2")) file_digest (h->rpath, "rsrc") ;
 			table () ;
